@@ -30,7 +30,11 @@ EXPLANATION = (
     'variable, arithmetic is decomposed by the stride, every dereference, subscript and filled range is inside the array, and the '
     'callers establish the block preconditions of the appliers. '
     'the two scalar Householder appliers of the Schur class stay inside the 3 x ncol / nrow x 3 window their callers establish. '
-    'Does NOT decide NaN-freedom in general, the inside of the SIMD Householder applier of the Schur class (its peeling arithmetic needs a congruence domain), '
+    'The vectorised applier is covered too: the zone state carries congruences (x - (x & (c-1)) is a multiple of c within c-1 of x; a '
+    'counter stepped by c from 0 stays a multiple of c), so `i < peeling_end` yields i + c <= peeling_end and every packet load / store '
+    'of PacketSize rows stays below nrow. '
+    '(D13) every aligned packet access has alignment evidence for the very column it touches (today: no aligned access at all). '
+    'Does NOT decide NaN-freedom in general, '
     'DoubleShiftQR::apply_PX(vector) whose third-row read depends on the stored reflector sizes, BKLDLT::solve_inplace (depends on '
     'the sign pattern of the stored permutation), or undefined behaviour outside these clauses.')
 ASSUMPTIONS = ['class invariants = negation of the constructor guards (C12 shows they equal the documented ranges)',
@@ -531,8 +535,9 @@ def factorization_ranges(ctx, rule='factorization-index-within-extent'):
                         if z is None:
                             problems.append('call site unreachable in the analysis')
                         else:
-                            L0 = ranges.linform(fn, a[0])
-                            if L0 is None or not ranges.prove_nonpos(z, {**{k: -v for k, v in L0.items() if k != 1}, 1: 1 - L0.get(1, 0)}):
+                            # from_k >= 1: some lower form L of the argument (max(a, b) >= a and >= b) satisfies 1 - L <= 0
+                            lows = ranges.lower_forms(fn, a[0])
+                            if not any(ranges.prove_nonpos(z, {**{k: -v for k, v in L0.items() if k != 1}, 1: 1 - L0.get(1, 0)}) for L0 in lows):
                                 problems.append('cannot prove from_k >= 1 for %s' % fn.s(a[0]))
                             if sym(fn, a[1], inline=False) != ('F', 'm_ncv'):
                                 problems.append('to_m is %s, not the subspace dimension the factorization was built with' % fn.s(a[1]))
@@ -846,11 +851,204 @@ def pointer_kernel_contracts(ctx, rule='pointer-kernel-contracts'):
     D4 = Dense({'WL': dict(rows=3, cols='ncol', stride='stride'), 'WR': dict(rows='nrow', cols=3, stride='stride')},
                {'apply_householder_left': {'x': 'WL', 'x_end': 'WL'}, 'apply_householder_right': {'x': 'WR', 'x0': 'WR', 'x1': 'WR', 'x2': 'WR'},
                 'apply_householder_right_simd': simd})
+    D3.unmodelled = {'apply_PX': {'x': 'vector overload: whether x[2] is read depends on the stored reflector size nr (a content invariant of m_ref_nr)'},
+                     'apply_QtY': {'y_ptr': 'walks the vector handed to the vector overload of apply_PX (same reason)'}}
     tot = contracts.verify_dense(ctx, HH, D4, _check_sites, rule, min_sites=30)
     for spec, dm, floor in ((HQ, D1, 25), (TQ, D2, 20), (DS, D3, 60)):
         tot += contracts.verify_dense(ctx, spec, dm, _check_sites, rule, min_sites=floor)
         _extents_established(ctx, spec, rule)
     return tot
+
+
+
+# D13: aligned packet accesses need alignment evidence for the address they touch
+def aligned_access_evidence(ctx, rule='aligned-packet-access-has-alignment-evidence'):
+    """An aligned packet load / store on a misaligned address is undefined behaviour (a fault on x86-64).  Every aligned access
+    (pload / pstore, or ploadt / pstoret with a non-zero alignment mode) through a pointer derived from a pointer parameter x
+    by whole columns (x + c * stride) needs, on every way into it, a test of the alignment of that very column: a test of
+    x + c * stride itself, or a test of x together with a test that the stride keeps the alignment.  Testing the first column
+    only says nothing about the others (an odd stride misaligns them)."""
+    def aligned_sites(fn):
+        out = []
+        for x in fn.walk():
+            if x['k'] == 'CallExpr' and x.get('callee') in ('pload', 'pstore'):
+                out.append(x)
+            elif x['k'] == 'CallExpr' and x.get('callee') in ('ploadt', 'pstoret', 'ploadt_ro'):
+                ta = x.get('targs') or []
+                if ta and ta[-1] not in ('0',):
+                    out.append(x)
+        return out
+
+    def columns(fn):
+        """pointer local / param id -> (param id it derives from, whole-column offset) by the definitions in fn, or None"""
+        col = {}
+        for v in fn.params:
+            if zone.zone_is_ptr(fn.locals[v]['type']):
+                col[v] = (v, 0)
+        strides = set(v for v in fn.params if fn.locals[v]['name'] in ('stride', 'ld', 'lda', 'outer_stride'))
+        changed = True
+        defs = []
+        for x in fn.walk():
+            if x['k'] == 'DeclStmt':
+                for d in x['decls']:
+                    if 'var' in d and 'init' in d and zone.zone_is_ptr(fn.locals[d['var']]['type']):
+                        defs.append((d['var'], fn.nodes[d['init']]))
+            if x['k'] == 'BinaryOperator' and x.get('op') == '=':
+                l = fn.strip(fn.nodes[x['c'][0]])
+                if l is not None and l['k'] == 'DeclRefExpr' and 'var' in l and zone.zone_is_ptr(fn.locals[l['var']]['type']):
+                    defs.append((l['var'], fn.nodes[x['c'][1]]))
+
+        def ev(n):
+            n = fn.strip(n)
+            if n is None:
+                return None
+            if n['k'] == 'DeclRefExpr' and 'var' in n:
+                return col.get(n['var'])
+            if n['k'] == 'BinaryOperator' and n.get('op') == '+':
+                a, b = fn.strip(fn.nodes[n['c'][0]]), fn.strip(fn.nodes[n['c'][1]])
+                for p_, o_ in ((a, b), (b, a)):
+                    pv = ev(p_)
+                    if pv is not None:
+                        if o_ is not None and o_['k'] == 'DeclRefExpr' and o_.get('var') in strides:
+                            return (pv[0], pv[1] + 1)
+                        return pv          # a row offset: same column
+            return None
+        while changed:
+            changed = False
+            for v, init in defs:
+                r = ev(init)
+                if r is not None and col.get(v) != r:
+                    if v in col and col[v] != r:
+                        col[v] = None
+                    else:
+                        col[v] = r
+                        changed = True
+        return col, strides
+
+    def evidence(fn, node):
+        """alignment tests that hold at `node`: set of ('ptr', param id, column) / ('stride',)"""
+        col, strides = columns(fn)
+        out = set()
+        for anc in fn.ancestors(node):
+            if anc['k'] != 'IfStmt' or not fn.within(node, anc['then']):
+                continue
+            conj = []
+
+            def flat(n):
+                n = fn.strip(n)
+                if n['k'] == 'BinaryOperator' and n.get('op') == '&&':
+                    flat(fn.nodes[n['c'][0]])
+                    flat(fn.nodes[n['c'][1]])
+                else:
+                    conj.append(n)
+            flat(fn.nodes[anc['cond']])
+            for c in conj:
+                if c['k'] != 'BinaryOperator' or c.get('op') != '==':
+                    continue
+                sides = [fn.strip(fn.nodes[k_]) for k_ in c['c']]
+                tst = [s_ for s_ in sides if s_ is not None and s_['k'] == 'BinaryOperator' and s_.get('op') in ('%', '&')]
+                zero = [s_ for s_ in sides if s_ is not None and (s_['k'] == 'IntegerLiteral' and s_.get('val') == '0')]
+                if not tst or not zero:
+                    continue
+                subject = fn.nodes[tst[0]['c'][0]]
+                ptrs = [y for y in fn.walk(subject['id']) if y['k'] == 'DeclRefExpr' and 'var' in y and zone.zone_is_ptr(fn.locals[y['var']]['type'])]
+                if ptrs:
+                    # column of the tested pointer expression
+                    inner = None
+                    for y in fn.walk(subject['id']):
+                        if y['k'] in ('CXXReinterpretCastExpr', 'CStyleCastExpr') and y.get('c'):
+                            inner = fn.nodes[y['c'][0]]
+                            break
+                    colf, _ = columns(fn)
+
+                    def evp(n):
+                        n = fn.strip(n)
+                        if n is None:
+                            return None
+                        if n['k'] == 'DeclRefExpr' and 'var' in n:
+                            return colf.get(n['var'])
+                        if n['k'] == 'BinaryOperator' and n.get('op') == '+':
+                            a, b = fn.strip(fn.nodes[n['c'][0]]), fn.strip(fn.nodes[n['c'][1]])
+                            for p_, o_ in ((a, b), (b, a)):
+                                pv = evp(p_)
+                                if pv is not None:
+                                    if o_ is not None and o_['k'] == 'DeclRefExpr' and o_.get('var') in strides:
+                                        return (pv[0], pv[1] + 1)
+                                    if o_ is not None and o_['k'] == 'BinaryOperator' and o_.get('op') == '*':
+                                        ops = [fn.strip(fn.nodes[k_]) for k_ in o_['c']]
+                                        lit = [q for q in ops if q is not None and q['k'] == 'IntegerLiteral']
+                                        st_ = [q for q in ops if q is not None and q['k'] == 'DeclRefExpr' and q.get('var') in strides]
+                                        if lit and st_:
+                                            return (pv[0], pv[1] + int(lit[0]['val']))
+                                    return None
+                        return None
+                    r = evp(inner) if inner is not None else None
+                    if r is not None:
+                        out.add(('ptr', r[0], r[1]))
+                elif any(y['k'] == 'DeclRefExpr' and y.get('var') in strides for y in fn.walk(subject['id'])):
+                    out.add(('stride',))
+        return out
+    nsite = 0
+    ctl = 0
+    for fn in list(ctx.C.functions) + list(ctx.F.concrete()):
+        control = fn.qname.startswith('SpectraControl::aligned_second_column')
+        if not control and not fn.qname.startswith('Spectra::'):
+            continue
+        sites = aligned_sites(fn)
+        if not sites:
+            continue
+        col, strides = columns(fn)
+        # evidence available on every way into the function: intersection over its call sites (+ nothing if it has none)
+        callers = []
+        pool = list(ctx.C.functions) if control else list(ctx.F.concrete())
+        for g in pool:
+            for c in g.walk():
+                if c['k'] in ('CallExpr', 'CXXMemberCallExpr') and c.get('callee') == fn.name and (c.get('targs') or []) == (fn.d.get('targs') or []) and (control or c.get('cls') == fn.cls):
+                    callers.append((g, c))
+        entry_ev = None
+        for g, c in callers:
+            ev = evidence(g, c)
+            gcol, _ = columns(g)
+            args = g.call_args(c)
+            # translate the caller's evidence to the callee's parameters (pointer argument i is parameter i)
+            tr = set()
+            for e_ in ev:
+                if e_[0] == 'stride':
+                    tr.add(e_)
+                    continue
+                for i_, a_ in enumerate(args):
+                    a0 = g.strip(a_)
+                    if a0 is not None and a0['k'] == 'DeclRefExpr' and gcol.get(a0.get('var')) == (e_[1], e_[2] - 0) and i_ < len(fn.params):
+                        tr.add(('ptr', fn.params[i_], 0 + (e_[2] - gcol[a0['var']][1])))
+            entry_ev = tr if entry_ev is None else (entry_ev & tr)
+        entry_ev = entry_ev or set()
+        problems = []
+        for a in sites:
+            nsite += 0 if control else 1
+            parg = fn.call_args(a)[0]
+            pv = None
+            for y in fn.walk(parg['id']):
+                if y['k'] == 'DeclRefExpr' and 'var' in y and zone.zone_is_ptr(fn.locals[y['var']]['type']):
+                    pv = col.get(y['var'])
+                    break
+            ev = evidence(fn, a) | entry_ev
+            if pv is None:
+                problems.append('`%s`: the column of the accessed pointer is not determined' % fn.s(a['id'])[:50])
+                continue
+            ok = ('ptr', pv[0], pv[1]) in ev or (('ptr', pv[0], 0) in ev and ('stride',) in ev)
+            if not ok:
+                problems.append('`%s` is an ALIGNED access to column %d of the window behind `%s`, but the alignment tests on the way in cover %s only' %
+                                (fn.s(a['id'])[:50], pv[1], fn.locals[pv[0]]['name'],
+                                 sorted('column %d' % e_[2] if e_[0] == 'ptr' else 'the stride' for e_ in ev) or 'nothing'))
+        if control:
+            ctl += 1 if problems else 0
+            continue
+        ctx.check(not problems, rule, '%s::%s' % ((fn.cls or '').replace('Spectra::', ''), fn.name), fn.qname,
+                  '%d aligned accesses, each with alignment evidence for its own column' % len(sites) if not problems else '; '.join(sorted(set(problems))[:3]))
+    if ctl < 1:
+        raise AnalysisBroken('aligned-access rule: positive control not matched')
+    if nsite == 0:
+        ctx.ok(rule, 'whole library', 'Spectra', 'no aligned packet access anywhere: every packet load / store is the unaligned form (positive control matched)')
 
 
 def _show_lin(fn, lin):
@@ -1150,6 +1348,7 @@ def run(ctx):
     _run(ctx)
     dense_kernel_contracts(ctx)
     packed_storage_contracts(ctx)
+    aligned_access_evidence(ctx)
     pointer_kernel_contracts(ctx)
 
 
